@@ -236,7 +236,8 @@ def debouncer(res, tier, period_ticks):
     from robotpy_ext.control.button_debouncer import ButtonDebouncer
 
     P = F(period_ticks, 64)
-    ops = [(adv, lvl) for adv in (0, 1, 2, 3, 4) for lvl in (0, 1)]
+    # ("setp",): set_debounce_period() called again with the period the object already has - the period has not changed
+    ops = [(adv, lvl) for adv in (0, 1, 2, 3, 4) for lvl in (0, 1)] + [("setp",)]
     cap = P + F(5, 64)
 
     def run(h):
@@ -245,7 +246,11 @@ def debouncer(res, tier, period_ticks):
         d = ButtonDebouncer(st, 1, period=float(P))
         viol = []
         last_true = None
-        for i, (adv, lvl) in enumerate(h):
+        for i, op in enumerate(h):
+            if op[0] == "setp":
+                d.set_debounce_period(float(P))
+                continue
+            adv, lvl = op
             env.advance(adv)
             now = env.now()
             st.level = bool(lvl)
@@ -413,7 +418,7 @@ def main(tier, seed):
         "SimpleWatchdog: advance in {0, timeout-1us, timeout, timeout+1us, 1 s, 1 s+1us}, reset, addEpoch, isExpired (exact integer-microsecond model), printIfExpired "
         "(captured warnings at least 1 s apart, only when expired). Flat sequences to the stated depth are run as an unmerged cross-check."
     )
-    return core.finish(PID, tier, seed, res, time.time() - t0, rule, ["which presses inside a debounce window are swallowed is unspecified (monitors only)", "ButtonDebouncer start value: any value <= 0 satisfies the oracle because the simulated FPGA time exceeds the period", "set_debounce_period / setTimeout mid-history are outside the alphabet"])
+    return core.finish(PID, tier, seed, res, time.time() - t0, rule, ["which presses inside a debounce window are swallowed is unspecified (monitors only)", "ButtonDebouncer start value: any value <= 0 satisfies the oracle because the simulated FPGA time exceeds the period", "set_debounce_period with a different period and setTimeout mid-history are outside the alphabet (set_debounce_period with the unchanged period is an operation)"])
 
 
 def replay(path):
